@@ -405,6 +405,11 @@ func (f *Frame) lvalue(st *State, e ast.Expr) Loc {
 			obj = f.info.Defs[e]
 		}
 		if v, ok := obj.(*types.Var); ok {
+			if f.resVals != nil {
+				if rv, ok := f.resVals[v]; ok {
+					return LTemp{val: rv}
+				}
+			}
 			return LVar{obj: v}
 		}
 		return LTemp{val: f.expr(st, e)}
